@@ -3,7 +3,7 @@
 # Use it with:  VERIF_REPO=/tmp/wt-name ./check Cxx --tier quick
 set -e
 d="$1"; [ -n "$d" ] || { echo "usage: $0 <dir>"; exit 2; }
-git -C /repo worktree add --detach -q "$d" HEAD
+git -C /repo worktree add --detach -q "$d" "${2:-HEAD}"
 cp /repo/photutils/version.py "$d/photutils/" 2>/dev/null || true
 cp /repo/photutils/_compiler.c /repo/photutils/compiler_version*.so "$d/photutils/" 2>/dev/null || true
 cp /repo/photutils/geometry/*.c /repo/photutils/geometry/*.so "$d/photutils/geometry/"
